@@ -371,6 +371,7 @@ NoViolation == viol = {}
 
 State == [cid |-> cid, best |-> best, reqs |-> reqs, ans |-> ans, pq |-> pq, nextB |-> nextB,
           pc |-> pc, h0 |-> h0, h |-> h, endH |-> endH, newR |-> newR, rq |-> rq, itx |-> itx,
-          quit |-> quit, nfail |-> nfail, due |-> abs.due, over |-> abs.over, stale |-> abs.stale]
+          quit |-> quit, nfail |-> nfail, due |-> abs.due, over |-> abs.over, stale |-> abs.stale,
+          post |-> abs.post]
 View == <<cid, best, reqs, ans, pq, nextB, pc, h0, h, endH, newR, rq, itx, quit, nfail, abs>>
 =============================================================================
